@@ -225,3 +225,11 @@ M("c03-permute", "C03", "pafs permuted (0,3,2,1)", BU, "        pafs = output[\"
 M("c03-input-scale-twice", "C03", "input scale applied twice for second+ sample", BU, "            predicted_instances_adjusted.append(\n                p / inputs[\"eff_scale\"][idx].to(p.device)\n            )", "            predicted_instances_adjusted.append(\n                p / inputs[\"eff_scale\"][idx].to(p.device) / (self.input_scale if idx > 0 else 1.0)\n            )")
 M("c03-rowcol-swap", "C03", "line subs row/col not swapped", PG, "    XY = XY[:, [1, 0], :]  # dim 1 is [row, col]\n", "    XY = XY[:, [0, 1], :]  # dim 1 is [row, col]\n")
 M("c03-toposort-bypass", "C03", "edges grouped in listing order", PG, "        self.sorted_edge_inds = toposort_edges(self.edge_types)\n", "        self.sorted_edge_inds = tuple(range(len(self.edge_types)))\n")
+
+M("c12-topk-position", "C12", "CentroidCrop keeps the first k peaks instead of the top-k values", TD, "                    current_peak_vals, indices = torch.topk(\n                        current_peak_vals, max_instances\n                    )\n                    current_peaks = current_peaks[indices]", "                    indices = torch.arange(max_instances)\n                    current_peak_vals = current_peak_vals[indices]\n                    current_peaks = current_peaks[indices]")
+M("c12-crop-index", "C12", "find_local_peaks crop index sample+channel", PF, "box_sample_inds = (peak_sample_inds * channels) + peak_channel_inds", "box_sample_inds = peak_sample_inds + peak_channel_inds")
+M("c12-fidx-misaligned", "C12", "frame_idx of a batch sorted", PD, "                fidxs = torch.tensor(fidxs, dtype=torch.int32)\n", "                fidxs = torch.tensor(sorted(fidxs), dtype=torch.int32)\n")
+M("c12-vidx-first", "C12", "video_idx of the batch taken from the first frame", PD, "                vidxs = torch.tensor(vidxs, dtype=torch.int32)\n", "                vidxs = torch.tensor([vidxs[0]] * len(vidxs), dtype=torch.int32)\n")
+M("c12-effscale-shared", "C12", "eff_scale of the batch replaced by its max", PD, "                eff_scales = torch.tensor(eff_scales, dtype=torch.float32)\n", "                eff_scales = torch.tensor([max(eff_scales)] * len(eff_scales), dtype=torch.float32)\n")
+M("c12-empty-not-skipped", "C12", "_generate_crops zips frames with peaks misaligned after an empty frame", TD, "                if torch.all(torch.isnan(centroid)):\n                    continue\n", "                if torch.all(torch.isnan(centroid)):\n                    break\n")
+M("c12-bu-split", "C12", "bottom-up peaks split by sample uses <= b", BU, "            cms_peaks.append(peaks[sample_inds == b])\n", "            cms_peaks.append(peaks[sample_inds <= b] if b == 1 else peaks[sample_inds == b])\n")
